@@ -49,7 +49,17 @@ func (*StringCastingMangler) Unmangle(sf reflect.StructField, vs []FieldValueTup
 		castTo = sf.Type.Elem()
 	}
 
-	return parse.String(str, castTo)
+	val, parseErr := parse.String(str, castTo)
+	if parseErr != nil {
+		return val, parseErr
+	}
+	// parse.String goes by the kind of the type, so for a user-defined named
+	// type (e.g. `type Level uint8`) it hands back the unnamed equivalent:
+	// convert it to the field's own type.
+	if val.Type() != sf.Type && val.Type().ConvertibleTo(sf.Type) {
+		val = val.Convert(sf.Type)
+	}
+	return val, nil
 }
 
 // ShouldRecurse always returns true in order to walk nested structs.
